@@ -263,7 +263,7 @@ def real_configure(style, docs, fname, tmp):
         with contextlib.redirect_stdout(io.StringIO()):
             apply_rules.configure_rules(oConfig, rl, oConfig.dConfig, 0, fname)
     except ConfigurationError as e:
-        kind = "unknownRule" if "could not be found" in e.message else ("deprecated" if "deprecated" in e.message else "other")
+        kind = "unknownSeverity" if e.message.startswith("ERROR: Severity ") else ("unknownRule" if "could not be found" in e.message else ("deprecated" if "deprecated" in e.message else "other"))
         return ("err", "config", kind, e.message[:300]), None
     except Exception as e:  # noqa: BLE001
         return ("err", "py", type(e).__name__, traceback.format_exc()[-600:]), None
@@ -1020,6 +1020,9 @@ def fix_and_report(args):
         before = run_file(style, docs, path, tmp, fix=False)
         if before.get("violations") is None:
             return {"error": before.get("exc") or before.get("config_stage"), "detail": (before.get("detail") or "")[-300:]}
+        if before.get("stderr", "").startswith("Error while processing") and "ERROR: Severity " in before["stderr"]:
+            # the configuration is rejected (unknown severity name, a ConfigurationError since the repo repair): not a run without violations
+            return {"error": "ConfigurationError", "detail": before["stderr"][-300:]}
         after = run_file(style, docs, path, tmp, fix=True)
         if after.get("violations") is None:
             return {"error": after.get("exc") or after.get("config_stage"), "detail": (after.get("detail") or "")[-300:]}
@@ -1126,7 +1129,9 @@ def check_oc_stack(drv, tables, st, tmp, files, pool, res_acc):
     res_acc["evals"] += 2
     if oa[0] == "ok":
         if ob[0] != "ok":
-            res_acc["fails"].append(("__main__.generate_output_configuration", "emittedConfigurationRejected", {"outcome": ob[:3], "style": style}, rep_in))
+            # an emitted file that names a user-defined severity is rejected since the repo repair of the severity look-up
+            # (ConfigurationError instead of severity None): the same defect of -oc as below, same identity
+            res_acc["fails"].append(("__main__.generate_output_configuration", "userSeverityNotEmitted" if uses_user_sev else "emittedConfigurationRejected", {"outcome": ob[:3], "style": style}, rep_in))
         else:
             for rid in eff_a:
                 if eff_a[rid] != eff_b.get(rid):
